@@ -24,7 +24,7 @@ type corpusResult struct {
 }
 
 func runCorpus(id string) []corpusResult {
-	dirs, _ := filepath.Glob(filepath.Join(verifDir(), "seeded", id+"-m*"))
+	dirs, _ := filepath.Glob(filepath.Join(verifDir(), "seeded", id+"-*"))
 	sort.Strings(dirs)
 	if len(dirs) == 0 {
 		return nil
